@@ -5,6 +5,7 @@ import (
 	"errors"
 	"fmt"
 	"math"
+	"sync"
 	"time"
 	"unsafe"
 
@@ -348,6 +349,63 @@ func isolationScenario() schk.Scenario {
 	}
 }
 
+// ifacePoolScenario: Pool[error] / Pool[any] - an interface element type. New may return the NIL
+// interface (a fresh result like any other), nil may be Put; Get must hand back New's result or a
+// value that was Put, and must not panic.
+func ifacePoolScenario(newReturnsNil bool) schk.Scenario {
+	type prec2 struct {
+		got  []any
+		done [2]bool
+	}
+	return schk.Scenario{
+		Name: fmt.Sprintf("Pool[any]/New-returns-nil-interface=%v|[G P(nil) G] || [P(7) G]", newReturnsNil), Bound: -1, RaceBound: 1,
+		Body: func(s *vrt.Sched) any {
+			r := &prec2{}
+			p := new(sync2.Pool[any])
+			if newReturnsNil {
+				p.New = func() any { return nil }
+			} else {
+				p.New = func() any { return "fresh" }
+			}
+			var mu sync.Mutex // harness-level: the results list
+			rec := func(v any) { mu.Lock(); r.got = append(r.got, v); mu.Unlock() }
+			s.Spawn("T0", func() { rec(p.Get()); p.Put(nil); rec(p.Get()); r.done[0] = true })
+			s.Spawn("T1", func() { p.Put(7); rec(p.Get()); r.done[1] = true })
+			return r
+		},
+		Check: func(x *vrt.Exec, obs any) (*schk.Fail, string) {
+			r := obs.(*prec2)
+			if x.Deadlock {
+				return nil, "abnormal"
+			}
+			if x.Panic != "" {
+				return schk.Failf("panic-on-nil-interface", "Get/Put on a pool of an interface type panicked: %s", x.Panic), ""
+			}
+			sevens := 0
+			for _, v := range r.got {
+				switch v {
+				case 7:
+					sevens++
+				case nil:
+					if !newReturnsNil {
+						// nil was Put as well: allowed to come back
+					}
+				case "fresh":
+					if newReturnsNil {
+						return schk.Failf("pool-invented", "Get returned %v, which is neither a Put value nor New's result", v), ""
+					}
+				default:
+					return schk.Failf("pool-invented", "Get returned %v, which is neither a Put value nor New's result", v), ""
+				}
+			}
+			if sevens > 1 || len(r.got) != 3 {
+				return schk.Failf("handed-out-twice", "three Gets returned %v: the value 7 was Put once", r.got), ""
+			}
+			return nil, fmt.Sprint(r.got)
+		},
+	}
+}
+
 func main() {
 	r := ev.Start("C18")
 	alpha := []call{{"Load", 0, 0}, {"Store", 1, 0}, {"Store", 2, 0}, {"Swap", 1, 0}, {"Swap", 2, 0}, {"CAS", 0, 1}, {"CAS", 1, 2}, {"CAS", 2, 1}}
@@ -447,7 +505,7 @@ func main() {
 			scs = append(scs, crowdedPool(true, idle, pp, ev.Pick(r, 1, 2), 1))
 		}
 	}
-	scs = append(scs, isolationScenario())
+	scs = append(scs, isolationScenario(), ifacePoolScenario(true), ifacePoolScenario(false))
 	schk.WorkerExtra = func() map[string]int64 {
 		return map[string]int64{"distinct_histories_judged_by_porcupine": int64(lin.Distinct())}
 	}
